@@ -1,5 +1,6 @@
 """./check Cxx --tier quick|thorough  — decide one property on /repo's current working tree."""
 import argparse
+import logging
 import importlib
 import json
 import os
@@ -15,6 +16,7 @@ def main():
     ap.add_argument("--tier", default=os.environ.get("VERIF_TIER", "quick"), choices=["quick", "thorough"])
     ap.add_argument("--replay")
     a = ap.parse_args()
+    logging.disable(logging.CRITICAL)
     seed = int(os.environ.get("VERIF_SEED", "20260930"))
     (core.VERIF / "build").mkdir(exist_ok=True)
     mod = importlib.import_module(f"vf.props.{a.pid.lower()}")
